@@ -19,40 +19,62 @@ pub struct Renderer<'a> {
     out: String,
     indent: usize,
     pub marks: Vec<Mark>,
+    layout: Option<&'a Layout>,
+    cur: usize,
+    used: Vec<usize>,
+}
+
+/// assignment of items to packages (index into `pkgs`; the last one is Main)
+#[derive(Clone, Debug)]
+pub struct Layout {
+    pub pkgs: Vec<String>,
+    pub adt_pkg: Vec<usize>,
+    pub fn_pkg: Vec<usize>,
 }
 
 pub fn render_ty(p: &GProg, t: &Ty) -> String {
+    render_ty_in(p, t, None, 0, &mut Vec::new())
+}
+
+/// type text as seen from package `cur`; packages referred to are pushed on `used`
+pub fn render_ty_in(p: &GProg, t: &Ty, layout: Option<&Layout>, cur: usize, used: &mut Vec<usize>) -> String {
     match t {
         Ty::Unit => "unit".into(),
         Ty::Bool => "bool".into(),
         Ty::Int(k) => k.name().into(),
         Ty::Str => "string".into(),
-        Ty::Tuple(ts) => format!(
-            "({})",
-            ts.iter().map(|t| render_ty(p, t)).collect::<Vec<_>>().join(", ")
-        ),
-        Ty::Array(t, n) => format!("[{}; {}]", render_ty(p, t), n),
-        Ty::Vec(t) => format!("Vec[{}]", render_ty(p, t)),
-        Ty::Ref(t) => format!("Ref[{}]", render_ty(p, t)),
-        Ty::Fn(ps, r) => format!(
-            "({}) -> {}",
-            ps.iter().map(|t| render_ty(p, t)).collect::<Vec<_>>().join(", "),
-            render_ty(p, r)
-        ),
+        Ty::Tuple(ts) => {
+            let parts: Vec<String> = ts.iter().map(|t| render_ty_in(p, t, layout, cur, used)).collect();
+            format!("({})", parts.join(", "))
+        }
+        Ty::Array(t, n) => format!("[{}; {}]", render_ty_in(p, t, layout, cur, used), n),
+        Ty::Vec(t) => format!("Vec[{}]", render_ty_in(p, t, layout, cur, used)),
+        Ty::Ref(t) => format!("Ref[{}]", render_ty_in(p, t, layout, cur, used)),
+        Ty::Fn(ps, r) => {
+            let parts: Vec<String> = ps.iter().map(|t| render_ty_in(p, t, layout, cur, used)).collect();
+            format!("({}) -> {}", parts.join(", "), render_ty_in(p, r, layout, cur, used))
+        }
         Ty::Adt(i, args) => {
-            let name = &p.adts[*i].name;
+            let name = adt_ref(p, *i, layout, cur, used);
             if args.is_empty() {
-                name.clone()
+                name
             } else {
-                format!(
-                    "{}[{}]",
-                    name,
-                    args.iter().map(|t| render_ty(p, t)).collect::<Vec<_>>().join(", ")
-                )
+                let parts: Vec<String> = args.iter().map(|t| render_ty_in(p, t, layout, cur, used)).collect();
+                format!("{}[{}]", name, parts.join(", "))
             }
         }
         Ty::Param(i) => TPARAM_NAMES[*i as usize % 4].into(),
     }
+}
+
+fn adt_ref(p: &GProg, a: usize, layout: Option<&Layout>, cur: usize, used: &mut Vec<usize>) -> String {
+    if let Some(l) = layout {
+        if l.adt_pkg[a] != cur {
+            used.push(l.adt_pkg[a]);
+            return format!("{}::{}", l.pkgs[l.adt_pkg[a]], p.adts[a].name);
+        }
+    }
+    p.adts[a].name.clone()
 }
 
 pub fn escape_str(s: &str) -> String {
@@ -89,6 +111,9 @@ impl<'a> Renderer<'a> {
             out: String::new(),
             indent: 0,
             marks: vec![],
+            layout: None,
+            cur: 0,
+            used: vec![],
         }
     }
 
@@ -97,6 +122,28 @@ impl<'a> Renderer<'a> {
         for _ in 0..self.indent {
             self.out.push_str("    ");
         }
+    }
+
+    fn ty(&mut self, t: &Ty) -> String {
+        render_ty_in(self.p, t, self.layout, self.cur, &mut self.used)
+    }
+
+    fn adt_name(&mut self, a: usize) -> String {
+        adt_ref(self.p, a, self.layout, self.cur, &mut self.used)
+    }
+
+    fn cross_pkg_adt(&self, a: usize) -> bool {
+        self.layout.map_or(false, |l| l.adt_pkg[a] != self.cur)
+    }
+
+    fn fn_name(&mut self, f: usize) -> String {
+        if let Some(l) = self.layout {
+            if l.fn_pkg[f] != self.cur {
+                self.used.push(l.fn_pkg[f]);
+                return format!("{}::{}", l.pkgs[l.fn_pkg[f]], self.p.fns[f].name);
+            }
+        }
+        self.p.fns[f].name.clone()
     }
 
     fn var(&self, v: VarId) -> &str {
@@ -126,7 +173,10 @@ impl<'a> Renderer<'a> {
     }
 
     fn program_mut(&mut self) {
-        for a in &self.p.adts {
+        for (ai, a) in self.p.adts.iter().enumerate() {
+            if self.layout.map_or(false, |l| l.adt_pkg[ai] != self.cur) {
+                continue;
+            }
             let tps = if a.tparams > 0 {
                 format!(
                     "[{}]",
@@ -139,7 +189,8 @@ impl<'a> Renderer<'a> {
                 AdtKind::Struct(fields) => {
                     self.out.push_str(&format!("struct {}{} {{", a.name, tps));
                     for (n, t) in fields {
-                        self.out.push_str(&format!("\n    {}: {},", n, render_ty(self.p, t)));
+                        let tt = self.ty(t);
+                        self.out.push_str(&format!("\n    {}: {},", n, tt));
                     }
                     self.out.push_str("\n}\n\n");
                 }
@@ -149,18 +200,18 @@ impl<'a> Renderer<'a> {
                         if ts.is_empty() {
                             self.out.push_str(&format!("\n    {},", n));
                         } else {
-                            self.out.push_str(&format!(
-                                "\n    {}({}),",
-                                n,
-                                ts.iter().map(|t| render_ty(self.p, t)).collect::<Vec<_>>().join(", ")
-                            ));
+                            let parts: Vec<String> = ts.iter().map(|t| self.ty(t)).collect();
+                            self.out.push_str(&format!("\n    {}({}),", n, parts.join(", ")));
                         }
                     }
                     self.out.push_str("\n}\n\n");
                 }
             }
         }
-        for f in &self.p.fns {
+        for (fi, f) in self.p.fns.iter().enumerate() {
+            if self.layout.map_or(false, |l| l.fn_pkg[fi] != self.cur) {
+                continue;
+            }
             self.func(f);
             self.out.push('\n');
         }
@@ -182,11 +233,13 @@ impl<'a> Renderer<'a> {
             }
             self.emit_var(*v, true);
             self.out.push_str(": ");
-            self.out.push_str(&render_ty(self.p, t));
+            let tt = self.ty(t);
+            self.out.push_str(&tt);
         }
         self.out.push(')');
         if f.ret != Ty::Unit || f.name != "main" {
-            self.out.push_str(&format!(" -> {}", render_ty(self.p, &f.ret)));
+            let tt = self.ty(&f.ret);
+            self.out.push_str(&format!(" -> {}", tt));
         }
         self.out.push(' ');
         self.block_body(&f.body);
@@ -225,7 +278,8 @@ impl<'a> Renderer<'a> {
                 self.pat(p);
                 if let Some(t) = ann {
                     self.out.push_str(": ");
-                    self.out.push_str(&render_ty(self.p, t));
+                    let tt = self.ty(t);
+            self.out.push_str(&tt);
                 }
                 self.out.push_str(" = ");
                 self.expr(e, P_TOP);
@@ -271,7 +325,8 @@ impl<'a> Renderer<'a> {
                     self.out.push('_');
                     return;
                 };
-                self.out.push_str(&self.p.adts[*a].name.clone());
+                let n = self.adt_name(*a);
+                self.out.push_str(&n);
                 self.out.push_str(" { ");
                 for (i, (fi, q)) in fs.iter().enumerate() {
                     if i > 0 {
@@ -288,8 +343,9 @@ impl<'a> Renderer<'a> {
                     self.out.push('_');
                     return;
                 };
-                if *qual {
-                    self.out.push_str(&self.p.adts[*a].name.clone());
+                if *qual || self.cross_pkg_adt(*a) {
+                    let n = self.adt_name(*a);
+                    self.out.push_str(&n);
                     self.out.push_str("::");
                 }
                 self.out.push_str(&vs[*v as usize].0.clone());
@@ -342,7 +398,10 @@ impl<'a> Renderer<'a> {
             }
             Expr::Str(s) => self.out.push_str(&escape_str(s)),
             Expr::Var(v) => self.emit_var(*v, false),
-            Expr::FnRef(f) => self.out.push_str(&self.p.fns[*f].name.clone()),
+            Expr::FnRef(f) => {
+                let n = self.fn_name(*f);
+                self.out.push_str(&n)
+            }
             Expr::Un(op, a) => {
                 let paren = ctx > P_UNARY;
                 if paren {
@@ -404,7 +463,7 @@ impl<'a> Renderer<'a> {
                 self.out.push(']');
             }
             Expr::StructLit(a, fs) => {
-                let name = self.p.adts[*a].name.clone();
+                let name = self.adt_name(*a);
                 let AdtKind::Struct(fields) = &self.p.adts[*a].kind else {
                     self.out.push_str("()");
                     return;
@@ -434,8 +493,9 @@ impl<'a> Renderer<'a> {
                     self.out.push_str("()");
                     return;
                 };
-                if *qual {
-                    self.out.push_str(&self.p.adts[*a].name.clone());
+                if *qual || self.cross_pkg_adt(*a) {
+                    let n = self.adt_name(*a);
+                    self.out.push_str(&n);
                     self.out.push_str("::");
                 }
                 self.out.push_str(&vs[*v as usize].0.clone());
@@ -445,7 +505,10 @@ impl<'a> Renderer<'a> {
             }
             Expr::Call(c, args) => {
                 match c {
-                    Callee::Fn(f, _) => self.out.push_str(&self.p.fns[*f].name.clone()),
+                    Callee::Fn(f, _) => {
+                        let n = self.fn_name(*f);
+                        self.out.push_str(&n)
+                    }
                     Callee::Builtin(b) => self.out.push_str(&b.name()),
                     Callee::Val(f) => self.expr(f, P_POSTFIX),
                 }
@@ -463,7 +526,8 @@ impl<'a> Renderer<'a> {
                     }
                     self.emit_var(*v, true);
                     self.out.push_str(": ");
-                    self.out.push_str(&render_ty(self.p, t));
+                    let tt = self.ty(t);
+            self.out.push_str(&tt);
                 }
                 self.out.push_str("| ");
                 match &**body {
@@ -550,4 +614,34 @@ pub fn render(p: &GProg) -> String {
 
 pub fn render_with_marks(p: &GProg) -> (String, Vec<Mark>) {
     Renderer::new(p).program_with_marks()
+}
+
+/// one file per package: `main.gom` for Main, `<Pkg>/lib.gom` for the others
+pub fn render_project(p: &GProg, layout: &Layout) -> Vec<(String, String)> {
+    let mut files = vec![];
+    let main_idx = layout.pkgs.len() - 1;
+    for (k, name) in layout.pkgs.iter().enumerate() {
+        let mut r = Renderer::new(p);
+        r.layout = Some(layout);
+        r.cur = k;
+        r.program_mut();
+        let has_items = layout.adt_pkg.iter().any(|x| *x == k) || layout.fn_pkg.iter().any(|x| *x == k);
+        if !has_items && k != main_idx {
+            continue;
+        }
+        let mut used: Vec<usize> = r.used.clone();
+        used.sort();
+        used.dedup();
+        let mut text = format!("package {}\n", name);
+        for u in used {
+            if u != k {
+                text.push_str(&format!("import {}\n", layout.pkgs[u]));
+            }
+        }
+        text.push('\n');
+        text.push_str(&r.out);
+        let path = if k == main_idx { "main.gom".to_string() } else { format!("{}/lib.gom", name) };
+        files.push((path, text));
+    }
+    files
 }
